@@ -6,28 +6,109 @@ coordinates only through d2 -- that syntactic fact is what C11 (pose invariance)
 """
 import z3
 
-from contracts.common import COLS, col, nof, sym_tree
+from contracts.common import COLS, col, nof, sym_tree, sym_tree_fixed
+from pyvc import ext_C10
+from pyvc import lemmas as lemlib
+from pyvc.npmodels import S2Arr
 from pyvc.spec import Registry
-from pyvc.values import NArr, Sym, fresh_name, to_z3
+from pyvc.values import NArr, SArr, Sym, fresh_name, to_z3
 
+
+@lemlib.lemma("nonnegative-numbers-with-equal-squares-are-equal", 2)
+def _roots_agree(y1, y2):
+    return z3.Implies(z3.And(y1 >= 0, y2 >= 0, y1 * y1 == y2 * y2), y1 == y2)
+
+
+ext_C10.install()  # numpy models needed by the C10 carriers (logical_and/or, count_nonzero log + row form, real arange)
+
+SHOLL = "swcgeom/analysis/sholl.py"
+NPH = "swcgeom/utils/numpy_helper.py"
+FEX = "swcgeom/analysis/feature_extractor.py"
+LM = "swcgeom/analysis/lmeasure.py"
+FEAT = "swcgeom/analysis/features.py"
 PATH = "swcgeom/core/path.py"
 NODE = "swcgeom/core/node.py"
 TREE = "swcgeom/core/tree.py"
 
 
-def d2(t, i, j):
-    """squared distance of nodes i, j (z3 ints) of tree t"""
+def d2(t, i, j, u=None):
+    """squared distance of node i of tree t and node j of tree u (default: the same tree); i, j z3 ints"""
     out = 0
     for c in "xyz":
-        a = col(t, c).arr
-        dlt = z3.Select(a, i) - z3.Select(a, j)
+        a, b = col(t, c).arr, col(u if u is not None else t, c).arr
+        dlt = z3.Select(a, i) - z3.Select(b, j)
         out = out + dlt * dlt
     return out
 
 
-def dist(E, t, i, j):
-    """Euclidean distance (the engine's ghost root of d2: y >= 0 and y*y = d2)"""
-    return to_z3(E.sqrt(Sym(d2(t, i, j), "real"), nonneg_known=True), "real")
+def dist(E, t, i, j, u=None):
+    """Euclidean distance (the engine's ghost root of d2: y >= 0 and y*y = d2).  The engine keeps one ghost root per
+    argument polynomial; d2 is symmetric, so the orientation whose root already exists on this path is used."""
+    a, b = d2(t, i, j, u), d2(u if u is not None else t, j, i, t)
+    for z in (a, b):
+        if ("sqrt", z3.simplify(z, som=True).sexpr()) in E.ghost:
+            return to_z3(E.sqrt(Sym(z, "real"), nonneg_known=True), "real")
+    return to_z3(E.sqrt(Sym(a, "real"), nonneg_known=True), "real")
+
+
+def tree_of_size(S, n, name="t", wf=True):
+    """a Tree of exactly n nodes (concrete n) whose columns are symbolic arrays (any contents); wf: id[i] = i and
+    0 <= pid[i] < n for i >= 1 (every non-root node has a parent in the tree)"""
+    from contracts.common import PDict
+    from swcgeom.core.swc_utils import get_names, get_types
+    from swcgeom.core.tree import Tree
+
+    cols = {}
+    for c, k in COLS.items():
+        a = S.arr(k, n=n, name=f"{name}_{c}")
+        a.frozen = True
+        cols[c] = a
+    if wf:  # the id column IS the identity (SWC normal form kept by every Tree constructor, C03/C05)
+        q = z3.Int(fresh_name("q"))
+        cols["id"].arr = z3.Lambda([q], q)
+    nd = PDict(cols)
+    nd.frozen = True
+    from pyvc.values import PList
+
+    t = S.obj(Tree, ndata=nd, names=get_names(), types=get_types(), source="", comments=PList([]))
+    t.frozen = True
+    if wf:
+        for i in range(1, n):
+            p = z3.Select(cols["pid"].arr, i)
+            S.assume(z3.And(p >= 0, p < n))
+    return t
+
+
+def ghost_consts(E, prefix):
+    """the integer ghost constants of the current path whose name starts with `prefix` (proof hints only)"""
+    out, seen, stack = {}, set(), list(E.pc)
+    while stack:
+        x = stack.pop()
+        if x.get_id() in seen:
+            continue
+        seen.add(x.get_id())
+        if z3.is_const(x) and x.decl().kind() == z3.Z3_OP_UNINTERPRETED and x.decl().name().startswith(prefix) and z3.is_int(x):
+            out[x.decl().name()] = x
+        if z3.is_quantifier(x):
+            stack.append(x.body())
+        else:
+            stack.extend(x.children())
+    return [out[k] for k in sorted(out)]
+
+
+def root_is_soma(t):
+    from swcgeom.core.swc_utils import get_types
+
+    return z3.Select(col(t, "type").arr, 0) == get_types().soma
+
+
+def node_obj(S, t, name="nd"):
+    """a Tree.Node attached to t at a symbolic in-range position"""
+    from swcgeom.core.tree import Tree
+
+    i = S.int(name + "_idx")
+    S.assume(z3.And(i.z >= 0, i.z < nof(t)))
+    return S.obj(Tree.Node, attach=t, idx=i, names=t.fields["names"])
 
 
 def path_obj(S, t, L, cls=None):
@@ -37,6 +118,15 @@ def path_obj(S, t, L, cls=None):
     for x in idx.items:
         S.assume(z3.And(x.z >= 0, x.z < nof(t)))
     return S.obj(cls or Path, attach=t, idx=idx, names=t.fields["names"], source="")
+
+
+def path_pre(E, v, o):
+    """the node ids of the path lie in the attached tree and the path has one of the verified lengths (1-4 nodes)"""
+    p = v["self"]
+    idx, t = p.fields["idx"], p.fields["attach"]
+    if not (isinstance(idx, NArr) and idx.ndim == 1 and 1 <= idx.shape[0] <= 4):
+        return False
+    return z3.And(*[z3.And(to_z3(x, "int") >= 0, to_z3(x, "int") < nof(t)) for x in idx.items])
 
 
 def register(R: Registry):
@@ -51,7 +141,7 @@ def register(R: Registry):
 
     R.add(f"{PATH}:Path.length", prop="C10",
           variants={f"path-of-{L}-nodes": (lambda S, _L=L: dict(self=path_obj(S, sym_tree(S, "t"), _L))) for L in LENS},
-          returns="real",
+          returns="real", requires=[("node-ids-in-the-tree-and-at-most-4-nodes", path_pre)],
           ensures=[("sum-of-consecutive-node-distances", length_post)],
           notes="path length fixed per variant (1-4 nodes); node ids, tree size and all coordinates symbolic")
 
@@ -62,7 +152,7 @@ def register(R: Registry):
 
     R.add(f"{PATH}:Path.straight_line_distance", prop="C10",
           variants={f"path-of-{L}-nodes": (lambda S, _L=L: dict(self=path_obj(S, sym_tree(S, "t"), _L))) for L in LENS},
-          returns="real",
+          returns="real", requires=[("node-ids-in-the-tree-and-at-most-4-nodes", path_pre)],
           ensures=[("distance-between-first-and-last-node", sld_post)])
 
     def tort_post(E, v, o):
@@ -76,4 +166,690 @@ def register(R: Registry):
 
     R.add(f"{PATH}:Path.tortuosity", prop="C10",
           variants={f"path-of-{L}-nodes": (lambda S, _L=L: dict(self=path_obj(S, sym_tree(S, "t"), _L))) for L in LENS},
+          requires=[("node-ids-in-the-tree-and-at-most-4-nodes", path_pre)],
           ensures=[("chord-over-length-or-one-for-a-zero-length-path", tort_post)])
+
+    register_nodes(R)
+    register_sholl(R)
+    register_padding(R)
+    register_lmeasure(R)
+    register_frontend(R, register_features(R))
+
+
+def register_nodes(R):
+    # ------------------------------------------------------------------ Node.distance
+    def nd_post(E, v, o):
+        a, b = v["self"], v["b"]
+        return to_z3(v["result"], "real") == dist(E, a.fields["attach"], to_z3(a.fields["idx"], "int"), to_z3(b.fields["idx"], "int"), b.fields["attach"])
+
+    def two_nodes_same(S):
+        t = sym_tree(S, "t")
+        return dict(self=node_obj(S, t, "a"), b=node_obj(S, t, "b"))
+
+    def two_nodes_other(S):
+        return dict(self=node_obj(S, sym_tree(S, "t"), "a"), b=node_obj(S, sym_tree(S, "u"), "b"))
+
+    R.add(f"{NODE}:Node.distance", prop="C10",
+          variants={"same-tree": two_nodes_same, "two-trees": two_nodes_other},
+          ensures=[("euclidean-distance-of-the-two-nodes", nd_post)],
+          notes="tree sizes, node positions and all coordinates symbolic")
+
+    # ------------------------------------------------------- Tree.Node.radial_distance
+    def rd_post(E, v, o):
+        a = v["self"]
+        return to_z3(v["result"], "real") == dist(E, a.fields["attach"], to_z3(a.fields["idx"], "int"), z3.IntVal(0))
+
+    R.add(f"{TREE}:Tree.Node.radial_distance", prop="C10",
+          setup=lambda S: dict(self=node_obj(S, sym_tree(S, "t"), "a")),
+          raises={"ValueError": ("root-is-not-typed-soma", lambda E, v, o: z3.Not(root_is_soma(v["self"].fields["attach"])))},
+          ensures=[("distance-to-node-0", rd_post),
+                   ("root-is-typed-soma", lambda E, v, o: root_is_soma(v["self"].fields["attach"]))])
+
+    # -------------------------------------------------------------------- Tree.length
+    def tl_post(E, v, o):
+        t = v["self"]
+        n = col(t, "pid").n
+        pid = col(t, "pid").arr
+        ys = [dist(E, t, z3.Select(pid, i), z3.IntVal(i)) for i in range(1, n)]
+        return to_z3(v["result"], "real") == (sum(ys) if ys else z3.RealVal(0))
+
+    R.add(f"{TREE}:Tree.length", prop="C10",
+          variants={f"tree-of-{n}-nodes": (lambda S, _n=n: dict(self=tree_of_size(S, _n))) for n in (1, 2, 3, 4, 5)},
+          ensures=[("sum-of-parent-child-distances", tl_post)],
+          notes="number of nodes fixed per variant (1-5); parent pointers (any branching pattern) and all coordinates symbolic")
+
+
+# ===========================================================================
+# Sholl analysis
+def straddles(p, c, r):
+    """THE definition: a segment with end-point radii (p, c) about the root crosses the sphere of radius r iff
+    proximal <= r < distal, in either direction"""
+    return z3.Or(z3.And(p <= r, r < c), z3.And(c <= r, r < p))
+
+
+def sholl_obj(S, name="rs"):
+    """a Sholl object whose `rs` is a symbolic (m, 2) array of segment end-point radii, m >= 0 symbolic"""
+    from swcgeom.analysis.sholl import Sholl
+
+    m = S.int(name + "_m")
+    S.assume(m.z >= 0)
+    a0, a1 = S.arr("real", n=m, name=name + "0"), S.arr("real", n=m, name=name + "1")
+    return S.obj(Sholl, rs=ext_C10.Rows([a0.arr, a1.arr], m.z, "real"), rmax=S.real("rmax"), tree=None)
+
+
+def is_count_of(E, res, n, pred):
+    """`res` IS the number of positions i in [0, n) with pred(i):  res is the value cnt_m(|m|) of the counting function
+    of a mask m that np.count_nonzero was applied to (ghost log of the model), |m| = n, and m[i] <=> pred(i) pointwise"""
+    for mask, r in ext_C10.counted(E):
+        if isinstance(res, Sym) and r.z.eq(res.z):
+            i = z3.Int(fresh_name("i"))
+            return z3.And(mask.nz() == n, z3.ForAll([i], z3.Implies(z3.And(i >= 0, i < n), mask.get(i).z == pred(i))))
+    return z3.BoolVal(False)
+
+
+def rs_unchanged(E, v, o):
+    a, b = v["self"].fields["rs"], o["self"].fields["rs"]
+    ok = isinstance(a, ext_C10.Rows) and len(a.cols) == len(b.cols) and all(x.eq(y) for x, y in zip(a.cols, b.cols)) and z3.is_true(z3.simplify(a.nz() == b.nz()))
+    rm = v["self"].fields["rmax"]
+    return ok and isinstance(rm, Sym) and rm.z.eq(o["self"].fields["rmax"].z)
+
+
+def register_sholl(R):
+    def rs_pred(sh, r):
+        rs = sh.fields["rs"]
+        return lambda i: straddles(z3.Select(rs.cols[0], i), z3.Select(rs.cols[1], i), to_z3(r, "real"))
+
+    # ---------------------------------------------------------------- Sholl.intersect
+    R.add(f"{SHOLL}:Sholl.intersect", prop="C10",
+          setup=lambda S: dict(self=sholl_obj(S), r=S.real("r")),
+          ensures=[("number-of-segments-straddling-r", lambda E, v, o: is_count_of(E, v["result"], o["self"].fields["rs"].nz(), rs_pred(o["self"], o["r"]))),
+                   ("sholl-object-unchanged", rs_unchanged)],
+          notes="rs: symbolic (m, 2) array, any m >= 0; r any real")
+
+    # ---------------------------------------------------------------------- Sholl.get
+    def radius_of(o, j):
+        """the j-th radius asked for: steps[j] for an array, (j+1)*rmax/(steps+1) for an int number of steps"""
+        if isinstance(o["steps"], NArr):
+            return o["steps"].items[j]
+        return Sym(z3.RealVal(j + 1) * to_z3(o["self"].fields["rmax"], "real") / z3.RealVal(o["steps"] + 1), "real")
+
+    def get_post(E, v, o):
+        res, sh = v["result"], o["self"]
+        k = o["steps"].shape[0] if isinstance(o["steps"], NArr) else o["steps"]
+        if not (isinstance(res, NArr) and res.shape == (k,)):
+            return False
+        n = sh.fields["rs"].nz()
+        return z3.And(*[is_count_of(E, res.items[j], n, rs_pred(sh, radius_of(o, j))) for j in range(k)])
+
+    variants = {f"steps=array-of-{k}-radii": (lambda S, _k=k: dict(self=sholl_obj(S), steps=NArr((_k,), [S.real(f"step{j}") for j in range(_k)], "real"))) for k in (1, 2, 3)}
+    variants.update({f"steps={k}": (lambda S, _k=k: dict(self=sholl_obj(S), steps=_k)) for k in (1, 2, 3)})
+    R.add(f"{SHOLL}:Sholl.get", prop="C10", variants=variants,
+          ensures=[("one-straddle-count-per-radius", get_post), ("sholl-object-unchanged", rs_unchanged)],
+          notes="rs: symbolic (m, 2) array, rmax any real; steps: an array of 1-3 symbolic radii, or the int 1, 2, 3 "
+                "(radii j*rmax/(steps+1), j = 1..steps)")
+
+    # ------------------------------------------------------------------- Sholl.get_rs
+    def rs_int_post(E, v, o):
+        res, steps, rmax = v["result"], to_z3(o["steps"], "int"), to_z3(o["rmax"], "real")
+        if not isinstance(res, SArr):
+            return False
+        j = z3.Int(fresh_name("j"))
+        return z3.And(res.nz() == steps,
+                      z3.ForAll([j], z3.Implies(z3.And(j >= 0, j < steps), to_z3(res.get(j), "real") * (z3.ToReal(steps) + 1) == (z3.ToReal(j) + 1) * rmax)))
+
+    def rs_arr_post(E, v, o):
+        res, st = v["result"], o["steps"]
+        if not (isinstance(res, NArr) and res.shape == st.shape and res.root().uid not in E.entry_uids):
+            return False
+        return z3.And(*[to_z3(a, "real") == to_z3(b, "real") for a, b in zip(res.items, st.items)])
+
+    R.add(f"{SHOLL}:Sholl.get_rs", prop="C10",
+          variants={"steps=int": lambda S: dict(rmax=S.real("rmax"), steps=S.int("steps")),
+                    "steps=array-of-3-radii": lambda S: dict(rmax=S.real("rmax"), steps=NArr((3,), [S.real(f"step{j}") for j in range(3)], "real"))},
+          requires=[("steps-nonnegative", lambda E, v, o: True if isinstance(v["steps"], NArr) else to_z3(v["steps"], "int") >= 0)],
+          ensures=[("exactly-steps-radii-j-times-rmax-over-steps-plus-1", lambda E, v, o: (rs_arr_post if isinstance(o["steps"], NArr) else rs_int_post)(E, v, o))],
+          notes="steps: any int >= 0 (symbolic), rmax any real; or a given array of radii, returned as a fresh copy")
+
+    # ----------------------------------------------------------------- Sholl.__init__
+    def rooted_tree(S, n):
+        t = tree_of_size(S, n)
+        S.assume(z3.Select(col(t, "pid").arr, 0) == -1)  # node 0 is the root (and the only one: pid[i] >= 0 for i >= 1)
+        return t
+
+    def init_setup(n):
+        def f(S):
+            from swcgeom.analysis.sholl import Sholl
+
+            return dict(self=S.obj(Sholl), tree=rooted_tree(S, n))
+
+        return f
+
+    def init_rs(E, v, o):
+        t, sh = o["tree"], v["self"]
+        n = col(t, "pid").n
+        rs, pid = sh.fields.get("rs"), col(t, "pid").arr
+        if not (isinstance(rs, NArr) and rs.shape == (n - 1, 2)):
+            return False
+        out = []
+        for k in range(n - 1):
+            out.append(to_z3(rs.items[2 * k], "real") == dist(E, t, z3.Select(pid, k + 1), z3.IntVal(0)))
+            out.append(to_z3(rs.items[2 * k + 1], "real") == dist(E, t, z3.IntVal(k + 1), z3.IntVal(0)))
+        return z3.And(*out)
+
+    def init_rs_hint(E, vars):
+        # the code measures from the FIRST node whose pid is -1 (a ghost position r), the definition from node 0:
+        # per end point, first the squared distances agree (r = 0 under the precondition), then the roots (lemma)
+        sh, t = vars["self"], vars["tree"]
+        rs = sh.fields.get("rs")
+        if not isinstance(rs, NArr) or t is None or not isinstance(t, type(sh)) and not hasattr(t, "fields"):
+            return
+        n = col(t, "pid").n
+        pid = col(t, "pid").arr
+        if rs.shape != (n - 1, 2):
+            return
+        for r in ghost_consts(E, "argmax!"):
+            E.prove("Sholl.__init__/step/the-first-root-position-is-0", r == 0, "proof step")
+        for k in range(n - 1):
+            for e, node in ((0, z3.Select(pid, k + 1)), (1, z3.IntVal(k + 1))):
+                y1, y2 = to_z3(rs.items[2 * k + e], "real"), dist(E, t, node, z3.IntVal(0))
+                E.prove(f"Sholl.__init__/step/squared-radius-{k}-{e}-is-the-squared-distance-to-node-0", y1 * y1 == y2 * y2, "proof step")
+                lemlib.use(E, "nonnegative-numbers-with-equal-squares-are-equal", y1, y2)
+
+    def init_rmax(E, v, o):
+        sh = v["self"]
+        rs, rm = sh.fields.get("rs"), to_z3(sh.fields.get("rmax"), "real")
+        xs = [to_z3(x, "real") for x in rs.items]
+        return z3.And(z3.And(*[rm >= x for x in xs]), z3.Or(*[rm == x for x in xs]))
+
+    def init_tree(E, v, o):
+        t, u = o["tree"], v["self"].fields.get("tree")
+        n = col(t, "pid").n
+        if u is None or u.uid in E.entry_uids or z3.is_false(z3.simplify(nof(u) == n)):
+            return False
+        same = [z3.Select(col(u, c).arr, i) == z3.Select(col(t, c).arr, i) for i in range(n) for c, k in COLS.items() if k == "int"]
+        iso = [d2(u, z3.IntVal(i), z3.IntVal(j)) == d2(t, z3.IntVal(i), z3.IntVal(j)) for i in range(n) for j in range(i)]
+        return z3.And(nof(u) == n, *same, *iso)
+
+    R.add(f"{SHOLL}:Sholl.__init__", prop="C10",
+          variants={f"tree-of-{n}-nodes": init_setup(n) for n in (1, 2, 3, 4)},
+          raises={"ValueError": ("no-segment", lambda E, v, o: col(v["tree"], "pid").n == 1)},
+          ensures=[("rs-are-the-root-distances-of-the-segment-end-points", init_rs),
+                   ("rmax-is-their-maximum", init_rmax),
+                   ("kept-tree-is-a-fresh-isometric-copy-with-the-same-topology", init_tree),
+                   ("at-least-one-segment", lambda E, v, o: col(o["tree"], "pid").n >= 2)],
+          options=dict(hints={"post/rs-are-the-root-distances-of-the-segment-end-points": init_rs_hint}),
+          notes="number of nodes fixed per variant (1-4; a single node has no segment: ValueError); parent pointers and coordinates symbolic, node 0 the root")
+
+
+# ===========================================================================
+# padding and the population front end
+def padded(res, n, src_get, src_len, pad, kind="real"):
+    """THE definition of padding to length n: |res| = n, res[i] = src[i] below min(n, |src|), the padding value from there on"""
+    if not isinstance(res, SArr):
+        return z3.BoolVal(False)
+    i = z3.Int(fresh_name("i"))
+    return z3.And(res.nz() == n,
+                  z3.ForAll([i], z3.Implies(z3.And(i >= 0, i < n), to_z3(res.get(i), kind) == z3.If(i < src_len, src_get(i), to_z3(pad, kind)))))
+
+
+def register_padding(R):
+    import numpy as np
+
+    def pad_post(E, v, o):
+        src, n = o["v"], to_z3(o["n"], "int")
+        kind = v["result"].kind if isinstance(v["result"], SArr) else "real"
+        if src is None:
+            return padded(v["result"], n, lambda i: z3.RealVal(0), z3.IntVal(0), o["padding_value"], kind)
+        get = (lambda i: to_z3(src.get(i), kind))
+        return padded(v["result"], n, get, src.nz() if isinstance(src, SArr) else to_z3(src.n, "int"), o["padding_value"], kind)
+
+    def v_arr(kind, vdt, dtype, pv=None):
+        def f(S):
+            d = dict(n=S.int("n"), v=S.arr(kind, name="v", dtype=np.dtype(vdt)), dtype=dtype)
+            d["v"].frozen = True
+            if pv is not None:
+                d["padding_value"] = pv(S)
+            return d
+
+        return f
+
+    def v_list(S):
+        l = S.plist("real", name="v")
+        l.frozen = True
+        return dict(n=S.int("n"), v=l, dtype=np.float32, padding_value=S.real("pad"))
+
+    R.add(f"{NPH}:padding1d", prop="C10", pure_inline=True,
+          variants={"float32-array,dtype=float32,any-padding-value": v_arr("real", "float32", np.float32, lambda S: S.real("pad")),
+                    "float64-array,dtype=float32,default-padding": v_arr("real", "float64", np.float32),
+                    "float64-array,dtype=None,any-padding-value": v_arr("real", "float64", None, lambda S: S.real("pad")),
+                    "int32-array,dtype=int32,any-padding-value": v_arr("int", "int32", np.int32, lambda S: S.int("pad")),
+                    "python-list,dtype=float32,any-padding-value": v_list,
+                    "v=None,default-padding": lambda S: dict(n=S.int("n"), v=None)},
+          requires=["n-nonnegative :: n >= 0"],
+          ensures=[("length-n-prefix-of-v-then-the-padding-value", pad_post)],
+          notes="n, the length of v, its contents and the padding value symbolic; the input array is frozen (any write = failed frame obligation)")
+
+    # ------------------------------------------- PopulationFeatureExtractor._get_impl
+    # the per-tree evaluator is abstract: tree p yields an arbitrary vector FV(p, .) of arbitrary length FLEN(p) >= 0
+    I_, R_ = z3.IntSort(), z3.RealSort()
+    FLEN, FV = z3.Function("feature_len", I_, I_), z3.Function("feature_val", I_, I_, R_)
+
+    def feat_get(E, recv, args, kwargs):
+        E.assumptions.add("abstract per-tree evaluator: Features.get(feature) of tree p is some float32 vector FV(p, .) of some length FLEN(p) >= 0")
+        E.assume(FLEN(recv.z) >= 0)
+        q = z3.Int(fresh_name("q"))
+        E.ghost.setdefault("feature_calls", []).append((recv.z, args[0] if args else None, dict(kwargs)))
+        return SArr(z3.Lambda([q], FV(recv.z, q)), FLEN(recv.z), "real", name="feat", dtype=np.dtype("float32"))
+
+    def pop_setup(P):
+        def f(S):
+            from pyvc.values import PList
+            from swcgeom.analysis.feature_extractor import PopulationFeatureExtractor
+
+            fs = [S.opaque({"get": feat_get}, name=f"features{p}") for p in range(P)]
+            return dict(self=S.obj(PopulationFeatureExtractor, _features=PList(fs), _population=None), feature="some_feature", __fs__=fs)
+
+        return f
+
+    def pop_post(E, v, o):
+        res, fs = v["result"], o["__fs__"]
+        if not (isinstance(res, S2Arr) and res.transposed and res.k == len(fs)):
+            return False
+        L = res.nz()
+        lens = [FLEN(f.z) for f in fs]
+        longest = z3.And(z3.And(*[L >= x for x in lens]), z3.Or(*[L == x for x in lens]))
+        rows = [padded(SArr(res.cols[p], res.n, "real"), L, (lambda i, _f=f: FV(_f.z, i)), FLEN(f.z), 0) for p, f in enumerate(fs)]
+        return z3.And(longest, *rows)
+
+    def pop_calls(E, v, o):
+        calls, fs = E.ghost.get("feature_calls", []), o["__fs__"]
+        return len(calls) == len(fs) and all(c[0].eq(f.z) and c[1] == o["feature"] and c[2] == {} for c, f in zip(calls, fs))
+
+    R.add(f"{FEX}:PopulationFeatureExtractor._get_impl", prop="C10",
+          variants={f"population-of-{P}-trees": pop_setup(P) for P in (1, 2, 3)},
+          ensures=[("one-zero-padded-row-per-tree-as-long-as-the-longest", pop_post),
+                   ("each-tree-evaluated-once-in-order-with-the-requested-feature", pop_calls)],
+          notes="number of trees fixed per variant (1-3); the per-tree vectors are abstract (any length, any contents)")
+
+
+# ===========================================================================
+# L-Measure
+def register_lmeasure(R):
+    from swcgeom.analysis.lmeasure import LMeasure
+
+    lm = lambda S: S.obj(LMeasure, compartment_point=-1)
+    I_ = z3.IntSort()
+    # abstract topology protocol (the traversal itself is C04/C06/C08): node -> its children, node -> its subtree,
+    # tree -> its tips / furcations / branches, each an opaque list of abstract length
+    NCH, CHILD, SUB, NTIPS = z3.Function("n_children", I_, I_), z3.Function("child", I_, I_, I_), z3.Function("subtree_of", I_, I_), z3.Function("n_tips", I_, I_)
+    NFUR, NBR, SOMA = z3.Function("n_furcations", I_, I_), z3.Function("n_branches", I_, I_), z3.Function("soma_of", I_, I_)
+
+    def opaque_list(E, n, proto=None, elem=None):
+        from pyvc.values import PList
+
+        E.assumptions.add("abstract topology protocol: children()/subtree()/get_tips()/get_furcations()/get_branches() return lists of abstract lengths (n_tips >= 1)")
+        p = PList.fresh("ref", n, name="lst")
+        if elem is not None:
+            q = z3.Int(fresh_name("q"))
+            p.cols = [z3.Lambda([q], elem(q))]
+        p.proto = proto
+        return p
+
+    TREE_PROTO, NODE_PROTO = {}, {}
+
+    def _tips(E, recv, a, k):
+        E.assume(NTIPS(recv.z) >= 1)  # every tree has at least one tip
+        return opaque_list(E, NTIPS(recv.z))
+
+    def _nonneg_list(F):
+        def m(E, recv, a, k):
+            E.assume(F(recv.z) >= 0)
+            return opaque_list(E, F(recv.z))
+
+        return m
+
+    from pyvc.values import Opaque
+
+    TREE_PROTO.update({"get_tips": _tips, "get_furcations": _nonneg_list(NFUR), "get_branches": _nonneg_list(NBR),
+                       "soma": lambda E, recv, a, k: Opaque(SOMA(recv.z), NODE_PROTO)})
+
+    def _children(E, recv, a, k):
+        E.assume(NCH(recv.z) >= 0)
+        return opaque_list(E, NCH(recv.z), NODE_PROTO, lambda q: CHILD(recv.z, q))
+
+    NODE_PROTO.update({"children": _children, "subtree": lambda E, recv, a, k: Opaque(SUB(recv.z), TREE_PROTO)})
+
+    # ------------------------------------------------------------ partition_asymmetry
+    def pa_post(E, v, o):
+        n = o["n"].z
+        n1, n2 = z3.ToReal(NTIPS(SUB(CHILD(n, 0)))), z3.ToReal(NTIPS(SUB(CHILD(n, 1))))
+        r = to_z3(v["result"], "real")
+        return z3.If(n1 == n2, r == 0, r * (n1 + n2 - 2) == z3.If(n1 >= n2, n1 - n2, n2 - n1))
+
+    R.add(f"{LM}:LMeasure.partition_asymmetry", prop="C10",
+          setup=lambda S: dict(self=lm(S), n=S.opaque(NODE_PROTO, name="bif")),
+          raises={"AssertionError": ("not-a-bifurcation", lambda E, v, o: NCH(v["n"].z) != 2)},
+          ensures=[("zero-if-n1-equals-n2-else-abs-difference-over-n1-plus-n2-minus-2", pa_post),
+                   ("is-a-bifurcation", lambda E, v, o: NCH(o["n"].z) == 2)],
+          notes="n1, n2 = abstract tip counts (>= 1) of the two daughters' subtrees; the traversal that produces them is not part of this contract")
+
+    def count_carrier(name, param, F, via=None, note=""):
+        R.add(f"{LM}:LMeasure.{name}", prop="C10",
+              setup=lambda S: {"self": lm(S), param: S.opaque(TREE_PROTO if via is None else NODE_PROTO, name=param)},
+              ensures=[("is-the-length-of-the-listed-set", lambda E, v, o: to_z3(v["result"], "int") == F(o[param].z))],
+              notes="dispatch only: the count of the abstract list returned by the tree (the traversal is C04/C08)" + note)
+
+    count_carrier("n_stems", "tree", lambda t: NCH(SOMA(t)))
+    count_carrier("n_bifs", "tree", NFUR)
+    count_carrier("n_branch", "tree", NBR)
+    count_carrier("n_tips", "tree", NTIPS)
+    count_carrier("terminal_degree", "node", lambda n: NTIPS(SUB(n)), via="node")
+
+    # ------------------------------------------------------------------ fragmentation
+    def branch_sym(S):
+        from swcgeom.core.branch import Branch
+
+        t = sym_tree(S, "t")
+        idx = S.arr("int", name="bidx")
+        j = z3.Int(fresh_name("j"))
+        S.assume(z3.ForAll([j], z3.Implies(z3.And(j >= 0, j < idx.nz()), z3.And(idx.get(j).z >= 0, idx.get(j).z < nof(t)))))
+        return dict(self=lm(S), branch=S.obj(Branch, attach=t, idx=idx, names=t.fields["names"], source=""))
+
+    R.add(f"{LM}:LMeasure.fragmentation", prop="C10", setup=branch_sym,
+          ensures=[("number-of-compartments-is-nodes-minus-1", lambda E, v, o: to_z3(v["result"], "int") == o["branch"].fields["idx"].nz() - 1)],
+          notes="branch of symbolic length over a symbolic tree")
+
+    # -------------------------------------------------------------------- contraction
+    def branch_fixed(L):
+        def f(S):
+            from swcgeom.core.branch import Branch
+
+            return dict(self=lm(S), branch=path_obj(S, sym_tree(S, "t"), L, cls=Branch))
+
+        return f
+
+    def path_len(E, p):
+        t, idx = p.fields["attach"], p.fields["idx"].items
+        ys = [dist(E, t, idx[k].z, idx[k + 1].z) for k in range(len(idx) - 1)]
+        return sum(ys) if ys else z3.RealVal(0)
+
+    def contr_post(E, v, o):
+        p = o["branch"]
+        t, idx = p.fields["attach"], p.fields["idx"].items
+        return to_z3(v["result"], "real") * path_len(E, p) == dist(E, t, idx[0].z, idx[-1].z)
+
+    R.add(f"{LM}:LMeasure.contraction", prop="C10",
+          variants={f"branch-of-{L}-nodes": branch_fixed(L) for L in (2, 3, 4)},
+          requires=[("branch-has-positive-length", lambda E, v, o: path_len(E, v["branch"]) > 0)],
+          ensures=[("end-to-end-distance-over-path-length", contr_post)],
+          notes="branch length fixed per variant (2-4 nodes); a zero-length branch divides by zero in the code (excluded by the precondition)")
+
+    # ------------------------------------------------------------------- euc_distance
+    def ed_post(E, v, o):
+        a = o["node"]
+        return to_z3(v["result"], "real") == dist(E, a.fields["attach"], to_z3(a.fields["idx"], "int"), z3.IntVal(0))
+
+    R.add(f"{LM}:LMeasure.euc_distance", prop="C10",
+          setup=lambda S: dict(self=lm(S), node=node_obj(S, sym_tree(S, "t"), "a")),
+          raises={"ValueError": ("root-is-not-typed-soma", lambda E, v, o: z3.Not(root_is_soma(v["node"].fields["attach"])))},
+          ensures=[("distance-to-node-0", ed_post),
+                   ("root-is-typed-soma", lambda E, v, o: root_is_soma(o["node"].fields["attach"]))])
+
+    # ------------------------------------------------------------------ path_distance
+    def sorted_tree(S, n):
+        """n nodes, node 0 the only root, every other node's parent has a smaller index (the order every reader /
+        constructor of the library produces: C05) -- so the ancestor chain of a node has at most n-1 steps"""
+        t = tree_of_size(S, n)
+        pid = col(t, "pid").arr
+        S.assume(z3.Select(pid, 0) == -1)
+        for i in range(1, n):
+            S.assume(z3.Select(pid, i) < i)
+        return t
+
+    def chain(t, i0, n):
+        """p_0 = i0, p_{k+1} = pid[p_k]: the iterated parent function, and alive_k = no root met before step k"""
+        pid = col(t, "pid").arr
+        ps, alive = [i0], [z3.BoolVal(True)]
+        for _ in range(n - 1):
+            alive.append(z3.And(alive[-1], z3.Select(pid, ps[-1]) != -1))
+            ps.append(z3.Select(pid, ps[-1]))
+        return ps, alive
+
+    def pd_post(E, v, o):
+        a = o["node"]
+        t, i0 = a.fields["attach"], to_z3(a.fields["idx"], "int")
+        n = col(t, "pid").n
+        ps, alive = chain(t, i0, n)
+        total = z3.RealVal(0)
+        for k in range(n - 1):
+            total = total + z3.If(alive[k + 1], dist(E, t, ps[k], ps[k + 1]), z3.RealVal(0))
+        return to_z3(v["result"], "real") == total
+
+    R.add(f"{LM}:LMeasure.path_distance", prop="C10",
+          variants={f"tree-of-{n}-nodes": (lambda S, _n=n: (lambda t: dict(self=lm(S), node=node_obj(S, t, "a")))(sorted_tree(S, _n))) for n in (1, 2, 3, 4)},
+          ensures=[("sum-of-segment-lengths-along-the-ancestor-chain", pd_post)],
+          notes="number of nodes fixed per variant (1-4), parents before children; the node, the parent pointers and all coordinates "
+                "symbolic; the loop is unrolled (at most n-1 iterations are feasible)")
+
+    # -------------------------------------------------------------------------- angle
+    ARCCOS = z3.Function("arccos", z3.RealSort(), z3.RealSort())
+
+    def vec(S, nm):
+        return NArr((3,), [S.real(f"{nm}{k}") for k in range(3)], "real")
+
+    def dot(a, b):
+        return sum((to_z3(x, "real") * to_z3(y, "real") for x, y in zip(a.items, b.items)), z3.RealVal(0))
+
+    def angle_post(E, v, o):
+        a, b = o["a"], o["b"]
+        na = to_z3(E.sqrt(Sym(dot(a, a), "real"), nonneg_known=True), "real")
+        nb = to_z3(E.sqrt(Sym(dot(b, b), "real"), nonneg_known=True), "real")
+        c = dot(a, b) / (na * nb)
+        clipped = z3.If(c < -1, z3.RealVal(-1), z3.If(c > 1, z3.RealVal(1), c))
+        return z3.And(na * nb != 0, to_z3(v["result"], "real") == ARCCOS(clipped))
+
+    R.add(f"{LM}:angle", prop="C10",
+          setup=lambda S: dict(a=vec(S, "a"), b=vec(S, "b")),
+          raises={"ValueError": ("a-zero-vector", lambda E, v, o: z3.Or(dot(v["a"], v["a"]) == 0, dot(v["b"], v["b"]) == 0))},
+          ensures=[("arccos-of-the-clipped-normalised-dot-product", angle_post),
+                   ("zero-vector-rejected", lambda E, v, o: z3.And(dot(o["a"], o["a"]) != 0, dot(o["b"], o["b"]) != 0))],
+          notes="arccos is an uninterpreted function (the same symbol in code model and clause)")
+
+
+# ===========================================================================
+# node-level feature classes
+def register_features(R):
+    from swcgeom.analysis.features import FurcationFeatures, NodeFeatures, TipFeatures
+
+    # ----------------------------------------------------------- NodeFeatures.get_count
+    R.add(f"{FEAT}:NodeFeatures.get_count", prop="C10",
+          setup=lambda S: dict(self=S.obj(NodeFeatures, tree=sym_tree(S, "t"))),
+          ensures=[("one-element-the-number-of-nodes", lambda E, v, o: isinstance(v["result"], NArr) and v["result"].shape == (1,)
+                    and to_z3(v["result"].items[0], "real") == z3.ToReal(nof(o["self"].fields["tree"])))],
+          notes="tree of symbolic size")
+
+    # ------------------------------------------------- NodeFeatures.get_radial_distance
+    def fixed_tree(S, n):
+        """n nodes (concrete), all column contents symbolic; id column = 0..n-1"""
+        t = sym_tree_fixed(S, n)
+        for i, x in enumerate(col(t, "id").items):
+            S.assume(x.z == i)
+        return t
+
+    def sel(t, c, i):
+        return to_z3(col(t, c).items[i], COLS[c])
+
+    def as_arrays(t):
+        """view of a concrete-shape tree as z3 arrays (so that d2 / dist apply unchanged)"""
+        from pyvc.values import Obj, PDict
+
+        cols = {}
+        for c, k in COLS.items():
+            its = col(t, c).items
+            arr = z3.K(z3.IntSort(), to_z3(its[0], k))
+            for i, x in enumerate(its):
+                arr = z3.Store(arr, i, to_z3(x, k))
+            cols[c] = SArr(arr, len(its), k)
+        return Obj(type(None), dict(ndata=PDict(cols)))
+
+    def rd_post(E, v, o):
+        t = o["self"].fields["tree"]
+        n = col(t, "pid").shape[0]
+        res = v["result"]
+        if not (isinstance(res, NArr) and res.shape == (n,)):
+            return False
+        ta = as_arrays(t)
+        return z3.And(*[to_z3(res.items[i], "real") == dist(E, ta, z3.IntVal(i), z3.IntVal(0)) for i in range(n)])
+
+    def soma_typed(t):
+        from swcgeom.core.swc_utils import get_types
+
+        return sel(t, "type", 0) == get_types().soma
+
+    R.add(f"{FEAT}:NodeFeatures.get_radial_distance", prop="C10",
+          variants={f"tree-of-{n}-nodes": (lambda S, _n=n: dict(self=S.obj(NodeFeatures, tree=fixed_tree(S, _n)))) for n in (1, 2, 3, 4)},
+          raises={"ValueError": ("root-is-not-typed-soma", lambda E, v, o: z3.Not(soma_typed(v["self"].fields["tree"])))},
+          ensures=[("distance-of-every-node-to-node-0", rd_post),
+                   ("root-is-typed-soma", lambda E, v, o: soma_typed(o["self"].fields["tree"]))],
+          notes="number of nodes fixed per variant (1-4); coordinates symbolic")
+
+    # ------------------------------------------------ furcation / tip masks and counts
+    def n_children(t, i):
+        n = col(t, "pid").shape[0]
+        return sum((z3.If(sel(t, "pid", j) == sel(t, "id", i), 1, 0) for j in range(n)), z3.IntVal(0))
+
+    def is_furcation(t, i):  # more than one child
+        return n_children(t, i) > 1
+
+    def is_tip(t, i):  # no child
+        return n_children(t, i) == 0
+
+    def mask_post(pred):
+        def f(E, v, o):
+            t = o["self"].fields["_features"].fields["tree"]
+            n = col(t, "pid").shape[0]
+            res = v["result"]
+            if not (isinstance(res, NArr) and res.shape == (n,)):
+                return False
+            return z3.And(*[to_z3(E.truth(res.items[i]), "bool") == pred(t, i) for i in range(n)])
+
+        return f
+
+    def subset_obj(cls, n):
+        def f(S):
+            t = sym_tree_fixed(S, n)  # ids arbitrary (the masks are defined through pid == id)
+            return dict(self=S.obj(cls, _features=S.obj(NodeFeatures, tree=t)))
+
+        return f
+
+    SIZES = (1, 2, 3, 4)
+    R.add(f"{FEAT}:FurcationFeatures.nodes", prop="C10",
+          variants={f"tree-of-{n}-nodes": subset_obj(FurcationFeatures, n) for n in SIZES},
+          ensures=[("mask-of-the-nodes-with-more-than-one-child", mask_post(is_furcation))],
+          notes="number of nodes fixed per variant (1-4); id / pid columns fully symbolic (any branching pattern)")
+    R.add(f"{FEAT}:TipFeatures.nodes", prop="C10",
+          variants={f"tree-of-{n}-nodes": subset_obj(TipFeatures, n) for n in SIZES},
+          ensures=[("mask-of-the-nodes-without-children", mask_post(is_tip))],
+          notes="number of nodes fixed per variant (1-4); id / pid columns fully symbolic")
+
+    def count_post(E, v, o):
+        s = o["self"]
+        t = s.fields["_features"].fields["tree"]
+        n = col(t, "pid").shape[0]
+        pred = is_furcation if s.cls is FurcationFeatures else is_tip
+        res = v["result"]
+        if not (isinstance(res, NArr) and res.shape == (1,)):
+            return False
+        return to_z3(res.items[0], "real") == z3.ToReal(sum((z3.If(pred(t, i), 1, 0) for i in range(n)), z3.IntVal(0)))
+
+    variants = {f"furcations,tree-of-{n}-nodes": subset_obj(FurcationFeatures, n) for n in SIZES}
+    variants.update({f"tips,tree-of-{n}-nodes": subset_obj(TipFeatures, n) for n in SIZES})
+    R.add(f"{FEAT}:_SubsetNodesFeatures.get_count", prop="C10", variants=variants,
+          ensures=[("one-element-the-number-of-nodes-of-the-subset", count_post)],
+          notes="furcation and tip subsets; number of nodes fixed per variant (1-4)")
+    # ------------------------------------------------------- LMeasure.branch_order
+    # (here because it shares the concrete-shape tree helpers) the code's documented reading: the number of
+    # furcations on the path from the node to the root, the node itself included
+    from swcgeom.analysis.lmeasure import LMeasure
+    from swcgeom.core.tree import Tree
+
+    def bo_setup(n):
+        def f(S):
+            t = fixed_tree(S, n)
+            pid = col(t, "pid").items
+            S.assume(pid[0].z == -1)
+            for i in range(1, n):
+                S.assume(z3.And(pid[i].z >= 0, pid[i].z < i))  # parents before children
+            i0 = S.int("a_idx")
+            S.assume(z3.And(i0.z >= 0, i0.z < n))
+            return dict(self=S.obj(LMeasure, compartment_point=-1), node=S.obj(Tree.Node, attach=t, idx=i0, names=t.fields["names"]))
+
+        return f
+
+    def bo_post(E, v, o):
+        a = o["node"]
+        t, p = a.fields["attach"], to_z3(a.fields["idx"], "int")
+        n = col(t, "pid").shape[0]
+        ta = as_arrays(t)
+        pid, idc = col(ta, "pid").arr, col(ta, "id").arr
+        kids = lambda q: sum((z3.If(z3.Select(pid, j) == z3.Select(idc, q), 1, 0) for j in range(n)), z3.IntVal(0))
+        total, alive = z3.IntVal(0), z3.BoolVal(True)
+        for _ in range(n):
+            total = total + z3.If(z3.And(alive, kids(p) > 1), 1, 0)
+            alive = z3.And(alive, z3.Select(pid, p) != -1)
+            p = z3.Select(pid, p)
+        return to_z3(v["result"], "int") == total
+
+    R.add(f"{LM}:LMeasure.branch_order", prop="C10",
+          variants={f"tree-of-{n}-nodes": bo_setup(n) for n in (1, 2, 3, 4)},
+          ensures=[("number-of-furcations-on-the-root-path-node-included", bo_post)],
+          notes="number of nodes fixed per variant (1-4), parents before children; the node and the parent pointers symbolic")
+
+    return dict(fixed_tree=fixed_tree, as_arrays=as_arrays, is_furcation=is_furcation, is_tip=is_tip, soma_typed=soma_typed)
+
+
+# ===========================================================================
+# the single-tree front end: Features.get(name) dispatches to the evaluator of that name
+def register_frontend(R, H):
+    from swcgeom.analysis.feature_extractor import Features
+
+    def feats(S, t):
+        return S.obj(Features, tree=t)
+
+    def one_number(E, v, expected):
+        res = v["result"]
+        return isinstance(res, NArr) and res.shape == (1,) and to_z3(res.items[0], "real") == expected
+
+    def tree_len(E, t):
+        n, pid = col(t, "pid").n, col(t, "pid").arr
+        ys = [dist(E, t, z3.Select(pid, i), z3.IntVal(i)) for i in range(1, n)]
+        return sum(ys) if ys else z3.RealVal(0)
+
+    variants = {"node_count": lambda S: dict(self=feats(S, sym_tree(S, "t")), feature="node_count")}
+    variants.update({f"length,tree-of-{n}-nodes": (lambda S, _n=n: dict(self=feats(S, tree_of_size(S, _n)), feature="length")) for n in (1, 2, 3)})
+    for nm in ("node_radial_distance", "furcation_count", "tip_count"):
+        variants[f"{nm},tree-of-3-nodes"] = (lambda S, _nm=nm: dict(self=feats(S, H["fixed_tree"](S, 3)), feature=_nm))
+    variants["unknown-name"] = lambda S: dict(self=feats(S, sym_tree(S, "t")), feature="no_such_feature")
+    variants["bifurcation_count"] = lambda S: dict(self=feats(S, sym_tree(S, "t")), feature="bifurcation_count")
+
+    def get_post(E, v, o):
+        f, t = o["feature"], o["self"].fields["tree"]
+        if f == "node_count":
+            return one_number(E, v, z3.ToReal(nof(t)))
+        if f == "length":
+            return one_number(E, v, tree_len(E, t))
+        res = v["result"]
+        if f == "node_radial_distance":
+            ta = H["as_arrays"](t)
+            return isinstance(res, NArr) and res.shape == (3,) and z3.And(*[to_z3(res.items[i], "real") == dist(E, ta, z3.IntVal(i), z3.IntVal(0)) for i in range(3)])
+        if f in ("furcation_count", "tip_count"):
+            pred = H["is_furcation"] if f == "furcation_count" else H["is_tip"]
+            return one_number(E, v, z3.ToReal(sum((z3.If(pred(t, i), 1, 0) for i in range(3)), z3.IntVal(0))))
+        return False
+
+    R.add(f"{FEX}:Features.get", prop="C10", variants=variants,
+          raises={"ValueError": ("no-evaluator-of-that-name-or-root-not-typed-soma", lambda E, v, o: True if v["feature"] in ("no_such_feature", "bifurcation_count")
+                                 else (z3.Not(H["soma_typed"](v["self"].fields["tree"])) if v["feature"] == "node_radial_distance" else False))},
+          ensures=[("the-number-of-the-named-feature", get_post)],
+          notes="dispatch by name: node_count (symbolic tree), length (trees of 1-3 nodes), node_radial_distance / furcation_count / "
+                "tip_count (trees of 3 nodes), an unknown name and the deprecated bifurcation_count (no evaluator: ValueError)")
